@@ -8,6 +8,7 @@ constants for a different program."""
 import os
 import re
 from .cparse import strip_comments
+from .fallback import with_fallback
 
 NUM = r"(-?\s*(?:0[xX][0-9a-fA-F]+|\d+))"
 
@@ -34,6 +35,12 @@ def ws(rx):
 
 
 def generate(repo):
+    regions = [strip_comments(open(os.path.join(repo, *p)).read()) for p in
+               (("util", "utf8.hh"), ("util", "utf8.cc"), ("preprocess", "remove_invalid_utf8_main.cc"))]
+    return "Src_utf8.v", with_fallback("Src_utf8.v", regions, lambda: strict(repo)[1])
+
+
+def strict(repo):
     src = strip_comments(open(os.path.join(repo, "util", "utf8.hh")).read())
     consts = []
 
